@@ -202,11 +202,61 @@ func init() {
 			logged := boolEdges(fn, forward(okVals, fwdOpts{noBinOp: true}), true)
 			// the update itself, or a helper of the package that returns success only after it
 			sum := newSuccSummary(p, sr)
+			// … or a helper that is handed the transaction's logs and returns success only after the
+			// update or through the 'already moved' edge of its own lookup in them (round 7, N2-r8:
+			// the whole per-branch body, lookup included, extracted into commitBranch)
+			movesOrLogged := func(c ssa.CallInstruction, sc *ssa.Function) bool {
+				args := c.Common().Args
+				var seeds []ssa.Value
+				for j, prm := range sc.Params {
+					if j < len(args) && logSet[args[j]] {
+						seeds = append(seeds, prm)
+					}
+				}
+				if len(seeds) == 0 {
+					return false
+				}
+				ls := forward(seeds, fwdOpts{noBinOp: true})
+				var oks []ssa.Value
+				for _, b := range sc.Blocks {
+					for _, in := range b.Instrs {
+						if lk, ok := in.(*ssa.Lookup); ok && lk.CommaOk && ls[lk.X] {
+							for _, ref := range *lk.Referrers() {
+								if ex, ok := ref.(*ssa.Extract); ok && ex.Index == 1 {
+									oks = append(oks, ex)
+								}
+							}
+						}
+					}
+				}
+				block := map[ssa.Instruction]bool{}
+				eachCall(sc, func(ic ssa.CallInstruction) {
+					if f := calleeFunc(ic); f != nil && sr[f] {
+						block[ic] = true
+					} else if g := ic.Common().StaticCallee(); g != nil && len(g.Blocks) > 0 && sum.wrapper(g, wrapperDepth) {
+						block[ic] = true
+					}
+				})
+				if len(block) == 0 {
+					return false
+				}
+				cut := mkCut(boolEdges(sc, forward(oks, fwdOpts{noBinOp: true}), true))
+				ei := errorResultIndex(sc.Signature)
+				for _, ret := range returnsOf(sc) {
+					if ei >= 0 && ei < len(ret.Results) && (definitelyNonNilError(retVal(ret, ei)) || nonNilByGuard(sc, ret, retVal(ret, ei))) {
+						continue
+					}
+					if _, reach := reachAfter(sc, nil, ret, cut, block); reach {
+						return false
+					}
+				}
+				return true
+			}
 			var sites []ssa.CallInstruction
 			eachCall(fn, func(c ssa.CallInstruction) {
 				if f := calleeFunc(c); f != nil && sr[f] {
 					sites = append(sites, c)
-				} else if sc := c.Common().StaticCallee(); sc != nil && len(sc.Blocks) > 0 && fnPkgPath(sc) == fnPkgPath(fn) && sum.wrapper(sc, wrapperDepth) {
+				} else if sc := c.Common().StaticCallee(); sc != nil && len(sc.Blocks) > 0 && fnPkgPath(sc) == fnPkgPath(fn) && (sum.wrapper(sc, wrapperDepth) || movesOrLogged(c, sc)) {
 					sites = append(sites, c)
 				}
 			})
